@@ -35,7 +35,7 @@ ASSUMPTIONS = [
   'the wrapped module itself (Linen apply / nnx.merge) is the reference: if it is wrong, wrapper and reference are wrong alike',
   'nothing is asserted about the wrapper Rngs after a call that raised (keys are drawn before the wrapped module runs)',
 ]
-PROBES = ['tonnx_runs', 'tolinen_runs', 'mutable_update_propagated', 'eval_call_no_update', 'roundtrip_split_merge', 'fault_in_wrapped', 'nested_in_nnx_parent', 'nested_in_linen_parent', 'partitioned_param_metadata', 'tolinen_sharding_metadata', 'tolinen_rng', 'convert_roundtrip']
+PROBES = ['tonnx_runs', 'tolinen_runs', 'mutable_update_propagated', 'eval_call_no_update', 'roundtrip_split_merge', 'fault_in_wrapped', 'nested_in_nnx_parent', 'nested_in_linen_parent', 'partitioned_param_metadata', 'tolinen_sharding_metadata', 'tolinen_rng', 'convert_roundtrip', 'tolinen_falsy_metadata', 'user_metadata_set', 'custom_registered_type', 'name_reregistered']
 
 
 def setup_worker(w, tier):
@@ -53,14 +53,18 @@ def setup_worker(w, tier):
   class NMod(nnx.Module):
     def __init__(self, d, use_rng, shard, *, rngs):
       k = rngs.params()
-      meta = {'sharding': ('dp',)} if shard else {}
+      meta = {'sharding': ('dp',)} if shard is True else ({'layer': 0, 'trainable': False} if shard == 'falsy' else {})
+      cmeta = {'synced': False} if shard == 'falsy' else {}
       self.w = nnx.Param(jax.random.randint(k, (d,), -4, 5).astype(jnp.float32), **meta)
-      self.count = nnx.BatchStat(jnp.zeros((), jnp.float32))
+      self.count = nnx.BatchStat(jnp.zeros((), jnp.float32), **cmeta)
       self.use_rng = use_rng
       self.rngs = rngs if use_rng else None
+      if CUSTOM[0] is not None:
+        self.ema = CUSTOM[0](jnp.zeros((), jnp.float32))
 
     def __call__(self, x, train=True):
       P.CTL.event('nnx-call')
+      META_SEEN.append(({k: v for k, v in self.w.get_metadata().items() if not k.endswith('_hooks')}, {k: v for k, v in self.count.get_metadata().items() if not k.endswith('_hooks')}, type(vars(self).get('ema')).__name__))
       if train:
         self.count.value = self.count.value + 1.0
       y = x + self.w.value + self.count.value
@@ -107,13 +111,18 @@ def generate(rs, tier):
         ops.append(dict(op='roundtrip'))
       elif r < 0.88:
         ops.append(dict(op='convert'))
+      elif r < 0.93:
+        ops.append(dict(op='set_meta', var=g.randrange(64), key=g.choice(['synced', 'layer', 'note']), value=g.choice([False, 0, True, 3, 'x', None])))
       else:
         ops.append(dict(op='fault_call', at=g.randrange(64), mutable=g.choice([None, ['stats', 'batch_stats', 'cache']]), fill=g.randrange(3)))
     return dict(engine='bridgeworld', knobs=dict(kind='tonnx', spec=sp, nested=g.random() < 0.3, seed=g.randrange(5), batch=g.choice([1, 2])), ops=ops)
   ops = []
+  custom = g.random() < 0.3
   for _ in range(g.randrange(2, 7)):
+    if custom and g.random() < 0.25:
+      ops.append(dict(op='reregister'))
     ops.append(dict(op='apply', train=g.random() < 0.7, mutable=g.random() < 0.7, fill=g.randrange(3), seed=g.randrange(4)))
-  return dict(engine='bridgeworld', knobs=dict(kind='tolinen', use_rng=g.random() < 0.4, shard=g.random() < 0.4, nested=g.random() < 0.35, seed=g.randrange(5), batch=g.choice([1, 2])), ops=ops)
+  return dict(engine='bridgeworld', knobs=dict(kind='tolinen', custom=custom, tag=g.getrandbits(40), use_rng=g.random() < 0.4, shard=g.choice([False, False, True, True, 'falsy']), nested=g.random() < 0.35, seed=g.randrange(5), batch=g.choice([1, 2])), ops=ops)
 
 
 def _fix_streams(sp):
@@ -199,7 +208,9 @@ class ToNNXWorld:
     self.plan, self.res, self.log = plan, res, log
     k = plan['knobs']
     self.spec = k['spec']
+    CUSTOM[0] = None
     self.lin = P.make(self.spec)
+    self.user_meta = {}
     self.x0 = P.make_input(k['batch'], 1)
     self.rngs = nnx.Rngs(params=k['seed'], dropout=k['seed'] + 10)
     self.w = bridge.ToNNX(self.lin, rngs=self.rngs)
@@ -224,6 +235,14 @@ class ToNNXWorld:
     for ins in _params(self.spec):
       if ins.get('part'):
         parts[ins['name']] = tuple(ins['part'])
+    for path, want_md in getattr(self, 'user_meta', {}).items():
+      var = where.get(path)
+      if var is None:
+        raise Violation('state-differs-from-wrapped', f'{what}: Variable {path} disappeared from the wrapper')
+      md = var.get_metadata()
+      for kk, vv in want_md.items():
+        if kk not in md or md[kk] != vv:
+          raise Violation('metadata-lost', f'{what}: metadata {kk}={vv!r} set on {path} is gone (metadata now {dict((a, b) for a, b in md.items() if not a.endswith("_hooks"))})')
     for path, var in where.items():
       col = path[0]
       want = {'params': nnx.Param, 'batch_stats': nnx.BatchStat, 'cache': nnx.Cache}.get(col)
@@ -293,6 +312,16 @@ class ToNNXWorld:
       self.call(oi, op, fault_at=op['at'] % max(1, n))
       self.call(oi, dict(op, op='call'))
       self.log.add(oi, 'fault_call')
+    elif op['op'] == 'set_meta':
+      # the user tags a Variable held by the wrapper; the tag must survive every later call (falsy values included)
+      _, where = extract(self.w)
+      paths = sorted(where)
+      if paths:
+        pth = paths[op['var'] % len(paths)]
+        setattr(where[pth], op['key'], op['value'])
+        self.user_meta.setdefault(pth, {})[op['key']] = op['value']
+        self.res.probe('user_metadata_set')
+      self.log.add(oi, 'set_meta')
     elif op['op'] == 'convert':
       # converting Linen variables to NNX attributes and back preserves values, names and sharding metadata,
       # and leaves the variables passed in untouched
@@ -329,11 +358,27 @@ def _params(spec):
       yield ins
 
 
+META_SEEN = []
+CUSTOM = [None]  # per-run custom Variable type of the wrapped NNX class
+
+
 class ToLinenWorld:
   def __init__(self, plan, res, log):
     self.plan, self.res, self.log = plan, res, log
     k = plan['knobs']
     self.k = k
+    CUSTOM[0] = None
+    if k.get('custom'):
+      # a user-defined Variable type registered under a user-chosen collection name (unique per run: the registry is
+      # process-global)
+      from flax.nnx import variablelib
+
+      self.vl = variablelib
+      self.cname = f'ema_{k["tag"]:x}'
+      self.ctype = type(f'EmaA_{k["tag"]:x}', (nnx.Variable,), {})
+      variablelib.register_variable_name(self.cname, self.ctype)
+      CUSTOM[0] = self.ctype
+      res.probe('custom_registered_type')
     if k['nested']:
       self.lm = LParent(k['use_rng'], k['shard'])
       res.probe('nested_in_linen_parent')
@@ -349,18 +394,32 @@ class ToLinenWorld:
         raise Violation('collection-missing', f'init: ToLinen variables lack collection {col!r}: {sorted(inner)}')
     if 'w' not in inner['params'] or 'count' not in inner['batch_stats']:
       raise Violation('collection-type-mismatch', f'init: Param / BatchStat are not exposed under params / batch_stats: {jax.tree.map(lambda x: 0, inner)}')
+    self.want_meta = ({'sharding': ('dp',)}, {}) if k['shard'] is True else (({'layer': 0, 'trainable': False}, {'synced': False}) if k['shard'] == 'falsy' else ({}, {}))
     if k['shard']:
-      box = inner['params']['w']
-      md = getattr(box, 'metadata', None)
-      if md is None or tuple(md.get('sharding') or ()) != ('dp',):
-        raise Violation('metadata-lost', f'init: sharding metadata of the NNX Param is not preserved in the Linen variable: {type(box).__name__} {md}')
-      res.probe('tolinen_sharding_metadata')
+      for col, name, want in (('params', 'w', self.want_meta[0]), ('batch_stats', 'count', self.want_meta[1])):
+        if not want:
+          continue
+        box = inner[col][name]
+        md = getattr(box, 'metadata', None)
+        if md is None or {kk: md.get(kk) for kk in want} != want:
+          raise Violation('metadata-lost', f'init: metadata {want} of the NNX {col}/{name} Variable is not preserved in the Linen variable: {type(box).__name__} {md}')
+      res.probe('tolinen_sharding_metadata' if k['shard'] is True else 'tolinen_falsy_metadata')
 
   def inner(self, v):
     return {c: (t['wrapped'] if self.k['nested'] else t) for c, t in v.items() if not self.k['nested'] or 'wrapped' in t}
 
   def step(self, oi, op):
     k = self.k
+    if op['op'] == 'reregister':
+      # the collection name is taken over by another type; the module still holds Variables of the first type,
+      # which from now on must travel under their own (type-named) collection
+      other = type(f'EmaB_{k["tag"]:x}_{oi}', (nnx.Variable,), {})
+      self.vl.register_variable_name(self.cname, other, overwrite=True)
+      P.CTL.reset()
+      self.vars = self.lm.init({'params': jax.random.key(k['seed']), 'dropout': jax.random.key(k['seed'] + 7)}, self.x0)
+      self.res.probe('name_reregistered')
+      self.log.add(oi, 'reregister')
+      return
     x = P.make_input(k['batch'], op['fill'])
     rngs = {'dropout': jax.random.key(op['seed'] + 20)}
     inner = self.inner(self.vars)
@@ -377,11 +436,18 @@ class ToLinenWorld:
     mut = ['batch_stats'] if op['mutable'] else False
     if k['use_rng']:
       self.res.probe('tolinen_rng')
+    del META_SEEN[:]
     out = self.lm.apply(self.vars, x, op['train'], rngs=rngs, mutable=mut)
     if mut:
       y, upd = out
     else:
       y, upd = out, {}
+    for seen in META_SEEN:
+      if k.get('custom') and seen[2] != self.ctype.__name__:
+        raise Violation('collection-type-mismatch', f'op {oi}: the wrapped module was built with a {self.ctype.__name__} Variable but inside apply it holds a {seen[2]} (name <-> type registry not inverse)')
+      got = tuple({kk: d.get(kk) for kk in w} for d, w in zip(seen, self.want_meta))
+      if got != self.want_meta:
+        raise Violation('metadata-lost', f'op {oi}: inside apply the rebuilt NNX module sees Variable metadata {seen}, the module was built with {self.want_meta}')
     if not k['use_rng']:
       if val(y) != val(y_ref.astype(np.float32)):
         raise Violation('output-differs-from-wrapped', f'op {oi} apply(train={op["train"]}, mutable={mut}): ToLinen returned {np.asarray(y).tolist()}, the NNX module on the same state returns {y_ref.tolist()}')
